@@ -61,6 +61,8 @@ pub struct StoreCase {
 pub enum Case {
     Pure(Pure),
     Store(StoreCase),
+    /// the policies of a `StoreCase` set and read through the client API of a real engine (restart instead of reopen)
+    Api(StoreCase),
 }
 
 fn filter_bytes() -> impl Strategy<Value = Vec<u8>> {
@@ -180,13 +182,15 @@ impl Prop for C15 {
         let pure = (pspec(), vec(keyrel(), 1..=8), vec(filter_string(), 0..=4)).prop_map(|(policy, keys, strings)| Case::Pure(Pure { policy, keys, strings }));
         let store = (prop::bool::weighted(0.3), vec((0u8..3, pspec()), 1..=4), vec(keyrel(), 1..=6), vec((any::<u16>(), pspec()), 0..=2))
             .prop_map(|(file, policies, keys, live_changes)| Case::Store(StoreCase { file, policies, keys, live_changes }));
-        prop_oneof![12 => pure, 1 => store].boxed()
+        let api = (prop::bool::weighted(0.4), vec((0u8..2, pspec()), 1..=4)).prop_map(|(file, policies)| Case::Api(StoreCase { file, policies, keys: vec![], live_changes: vec![] }));
+        prop_oneof![240 => pure, 20 => store, 1 => api].boxed()
     }
 
     fn check(ctx: &mut Ctx, case: &Case) -> Outcome {
         match case {
             Case::Pure(p) => check_pure(p),
             Case::Store(s) => check_store(ctx, s),
+            Case::Api(s) => check_api(ctx, s),
         }
     }
 }
@@ -395,5 +399,85 @@ fn check_store(ctx: &mut Ctx, c: &StoreCase) -> Outcome {
         o.fail("C15/harness-error", e);
     }
     let _: Option<Store> = None;
+    o
+}
+
+/// "Once set, returned unchanged by later reads and after reopening": through `Doc::set_download_policy` /
+/// `Doc::get_download_policy` of a real engine, with a restart from disk for file-backed cases.
+fn check_api(ctx: &mut Ctx, c: &StoreCase) -> Outcome {
+    use crate::props::c07::{api_fixture, within};
+    use iroh_docs::protocol::Docs;
+    let mut o = Outcome::default();
+    o.class(if c.file { "client-api/file" } else { "client-api/memory" });
+    let r: R<()> = (|| {
+        let (endpoint, gossip, blobs) = api_fixture(ctx)?;
+        let dir = if c.file { Some(ctx.fresh_path("c15api-dir")) } else { None };
+        let res: R<()> = ctx.rt.block_on(async {
+            let spawn = || async {
+                let b = match &dir {
+                    Some(d) => {
+                        es(std::fs::create_dir_all(d))?;
+                        Docs::persistent(d.clone())
+                    }
+                    None => Docs::memory(),
+                };
+                within("spawning the engine", b.spawn(endpoint.clone(), blobs.clone(), gossip.clone())).await?.map_err(|e| format!("spawn: {e:?}"))
+            };
+            let mut docs = spawn().await?;
+            let mut handles = vec![];
+            for d in 0..2u8 {
+                handles.push(es(within("import", docs.import_namespace(namespace(d).clone().into())).await?)?);
+            }
+            let default = DownloadPolicy::default();
+            for h in &handles {
+                if es(within("get", h.get_download_policy()).await?)? != default {
+                    o.fail("C15/default-policy", "through the client API: a document that never had a policy must report 'everything'");
+                }
+            }
+            let mut current: [Option<PSpec>; 2] = [None, None];
+            for (slot, p) in &c.policies {
+                let s = *slot as usize % 2;
+                es(within("set", handles[s].set_download_policy(to_policy(p))).await?)?;
+                current[s] = Some(p.clone());
+                if p.filters.len() >= 2 {
+                    o.nontrivial = true;
+                }
+                for (i, h) in handles.iter().enumerate() {
+                    let want = current[i].as_ref().map(to_policy).unwrap_or_default();
+                    let got = es(within("get", h.get_download_policy()).await?)?;
+                    if got != want {
+                        o.fail("C15/get-after-set", format!("through the client API, document {i}: get = {:?}, last set = {:?}", got, want));
+                    }
+                }
+                if o.failed() {
+                    break;
+                }
+            }
+            if dir.is_some() && !o.failed() {
+                handles.clear();
+                within("shutdown", iroh::protocol::ProtocolHandler::shutdown(&docs)).await?;
+                docs = spawn().await?;
+                o.class("client-api/engine-restarted-from-disk");
+                for d in 0..2u8 {
+                    let h = es(within("open", docs.open(namespace(d).id())).await?)?.ok_or("document gone after the restart")?;
+                    let want = current[d as usize].as_ref().map(to_policy).unwrap_or_default();
+                    let got = es(within("get", h.get_download_policy()).await?)?;
+                    if got != want {
+                        o.fail("C15/get-after-reopen", format!("through the client API, after a restart, document {d}: get = {:?}, last set = {:?}", got, want));
+                    }
+                }
+            }
+            handles.clear();
+            within("shutdown", iroh::protocol::ProtocolHandler::shutdown(&docs)).await?;
+            Ok(())
+        });
+        if let Some(d) = dir {
+            let _ = std::fs::remove_dir_all(d);
+        }
+        res
+    })();
+    if let Err(e) = r {
+        o.fail(if e.starts_with("harness-timeout") { "C15/harness-timeout" } else { "C15/harness-error" }, e);
+    }
     o
 }
